@@ -107,7 +107,19 @@ def handleBlocks : List Sx → Sx
     | none => Sx.bad
   | _ => Sx.bad
 
+/-- `(inh-lookup ((k v)…locals) ((k v)…context) name)`: what a block function called through a scoped placeholder
+    (`context.derived(locals)`) resolves `name` to -/
+def handleLookup : List Sx → Sx
+  | [.list loc, .list vars, .str x] =>
+    match Sx.mapM? decVar loc, Sx.mapM? decVar vars with
+    | some loc, some vars =>
+      match lookupVar [] (loc ++ vars) x with
+      | none => Sx.ok (.atom "none")
+      | some v => Sx.ok (.list [.atom "some", .str (String.ofList v)])
+    | _, _ => Sx.bad
+  | _ => Sx.bad
+
 def handlers : List (String × (List Sx → Sx)) :=
-  [("inh-render", handleRender), ("inh-spec", handleSpec), ("inh-super", handleSuper), ("inh-blocks", handleBlocks)]
+  [("inh-lookup", handleLookup), ("inh-render", handleRender), ("inh-spec", handleSpec), ("inh-super", handleSuper), ("inh-blocks", handleBlocks)]
 
 end JinjaV.Wire.Inherit
